@@ -231,3 +231,28 @@ macro_rules! lmax_boundary {
 }
 lmax_boundary!(c12_lmax_boundary_u8_254, 254);
 lmax_boundary!(c12_lmax_boundary_u8_253, 253);
+
+// refused FIRST push on an empty vector (the slot fits, the item does not): the zero terminator must survive (C13)
+refuse_u8!(c13_flex_u8_u8_refuse_1b, u8, 1, 9);
+refuse_u8!(c13_flex_u8_u8_refuse_2b, u8, 2, 9);
+
+/// empty FlexVec of unsized items, first push with a nested emplacer that cannot fit, then a push that fits
+#[kani::proof]
+#[kani::unwind(8)]
+fn c13_flex_vec_items_refused_first_push() {
+    // BOUNDED: buffer of 4 bytes, fixed script with symbolic values
+    let mut buf = [0u8; 4];
+    let mut j = 0;
+    while j < 4 { buf[j] = kani::any(); j += 1; }
+    let v = FlexVec::<FlatVec<u8, u8>, u8>::default_in_place(&mut buf).unwrap();
+    let size_before = v.size();
+    let r = v.push(flat_vec![1u8, 2, 3]).map(|_| ());
+    assert!(r.is_err(), "C13: a push that cannot fit was accepted");
+    assert!(v.len() == 0 && v.is_empty() && v.iter().next().is_none(), "C13: a refused first push left a ghost item");
+    assert!(v.size() == size_before, "C13: size() changed by a refused push");
+    assert!(FlexVec::<FlatVec<u8, u8>, u8>::validate(v.as_bytes()).is_ok(), "C13: the bytes do not validate after a refused push");
+    // later operations behave as if the refused call had never happened
+    let a: u8 = kani::any();
+    assert!(v.push(flat_vec![a]).is_ok(), "C13: a push that fits was refused after an earlier refused push");
+    assert!(v.len() == 1 && v.iter().next().unwrap().as_slice()[0] == a, "C13: push after a refused push differs from the abstract sequence");
+}
